@@ -31,7 +31,7 @@ COMPONENTS = {
     "stub": ["CAN backend (SimBus)", "can.Notifier (frames fed to Network.notify by the simulator)", "SDO client (RefSdoClient reference model)"],
 }
 PROBES = ["upload-exp", "upload-seg", "upload-empty", "download-exp", "download-seg", "download-empty", "garbage-fresh-node",
-          "garbage-inside-transfer", "restart-inside-transfer", "refusal", "source-callback", "source-stored", "source-parameter", "source-default"]
+          "garbage-inside-transfer", "restart-inside-transfer", "refusal", "source-callback", "source-stored", "source-parameter", "source-default", "dynamic-array-member"]
 # probes that mark an injected disturbance; the runner also counts them as fired faults in the evidence
 FAULT_PROBES = {'garbage-fresh-node': 'garbage-request-frame',
  'garbage-inside-transfer': 'garbage-request-frame',
@@ -231,7 +231,7 @@ def _do_garbage(ctx, w, kind, where):
             ctx.violation("C02/garbage-response-length", "%s answered by %s" % (what, rs[0].hex()))
     # whatever the server did to the store it must have told the application
     for (i, s, d) in w.wlog[nlog:]:
-        e = w.entries.get((i, s))
+        e = w.entries.get((i, s)) or w.dyn_entry(i, s)
         if e is not None:
             e.stored = (d, d)
         else:
@@ -272,6 +272,19 @@ def _begin_then_interrupt(ctx, w, readable, writable):
     except Nonconformance as x:
         _nc(ctx, x, "interrupted download %04X:%02X" % (e.index, e.sub))
     return True
+
+
+def _pick_entry(ctx, w, entries):
+    e = entries[ctx.choice(len(entries), "ent")]
+    if e.kind == "array" and e.sub >= 1 and ctx.choice(8, "dyn") == 0:
+        # a member the dictionary does not list: ODArray derives it from the first member
+        d = w.dyn_entry(e.index, min(255, e.sub + 1 + ctx.choice(6, "dynsub")))
+        if d is not None:
+            if d not in entries:
+                entries.append(d)
+            ctx.probe("dynamic-array-member")
+            return d
+    return e
 
 
 def scenario(ctx):
@@ -326,9 +339,9 @@ def scenario(ctx):
             if not entries:
                 op = "garbage"
             if op == "upload":
-                _do_upload(ctx, w, entries[ctx.choice(len(entries), "ent")], k)
+                _do_upload(ctx, w, _pick_entry(ctx, w, entries), k)
             elif op == "download":
-                _do_download(ctx, w, entries[ctx.choice(len(entries), "ent")], k)
+                _do_download(ctx, w, _pick_entry(ctx, w, entries), k)
             elif op == "garbage":
                 where = "fresh-node" if (k == 0 and w.client.sent == 0) else "boundary"
                 _do_garbage(ctx, w, GARBAGE[ctx.choice(len(GARBAGE), "gkind")], where)
